@@ -364,7 +364,7 @@ def layout_chunk(args):
     rng = random.Random(seed)
     cases = []
     for rec in recs:
-        for w in range(nwit):
+        for w in range(nwit[0] if len(rec[2]) < 3 else nwit[1]):
             for _ in range(20):
                 msg, exp = instantiate_layout(rec, rng)
                 if not label_conflict([k for k in msg if k not in HEADER]):
@@ -715,7 +715,7 @@ def run(prop, tier):
     f6 = f6_entry()
     try:
         # ---- TLC: the four model-checking runs, concurrently -------------------------------------------------------
-        lay_consts = dict(MaxExtra=3, TripleMode='"rot"' if quick else '"full"')
+        lay_consts = dict(MaxExtra=3, TripleMode='"rot"' if quick else '"pair"')
         ml = 3 if quick else 4
         runs = {"layout": ("MC_Readers_layout.cfg", lay_consts), "pp": ("MC_Readers_pp.cfg", dict(MaxLines=ml)),
                 "filter": ("MC_Readers_filter.cfg", dict(MaxLines=ml)), "broken": ("MC_Readers_broken.cfg", {})}
@@ -752,9 +752,8 @@ def run(prop, tier):
             print("note: known finding F6 no longer shows on its witness (compact_format keeps a name with a line break on one line)")
 
         # ---- (a) layout -------------------------------------------------------------------------------------------------
-        nwit = 2 if quick else 1
-        size = 1500 if quick else 6000
-        chunks = [(lay[i:i + size], rng.randrange(10 ** 9), nwit if quick else (2 if len(lay[i][2]) < 3 else 1)) for i in range(0, len(lay), size)]
+        size = 1500 if quick else 4000
+        chunks = [(lay[i:i + size], rng.randrange(10 ** 9), (2, 2) if quick else (4, 2)) for i in range(0, len(lay), size)]
         emitted = [(rng.randrange(10 ** 9), 40 if quick else 250) for _ in range(8 if quick else 32)]
         pool = []
         f6_count = 0
